@@ -254,11 +254,21 @@ def rule_backoff(ctx):
     return n + 1
 
 
+def reply_processor(f):
+    """the nested function that turns the daemon's decoded reply into a result or an error: one parameter, raises
+    DaemonError / WarmingUpError"""
+    cands = [g for g in f.nested.values() if len(g.params) == 1
+             and any(isinstance(x, ast.Raise) and x.exc is not None and ('DaemonError' in norm(x.exc) or 'WarmingUpError' in norm(x.exc)) for x in g.own_nodes())]
+    if len(cands) == 1:
+        return cands[0]
+    return list(f.nested.values())[0] if len(f.nested) == 1 else None
+
+
 def rule_align(ctx):
     f = ctx.func('daemon', 'Daemon._send_vector')
-    proc = list(f.nested.values())[0] if len(f.nested) == 1 else None
+    proc = reply_processor(f)
     if proc is None:
-        raise AnalysisError(f'{f.key}: reply processor (the single nested function) not found')
+        raise AnalysisError(f'{f.key}: reply processor (the nested function raising DaemonError) not found')
     rp = proc.params[0]
     n = 0
     rets = [r for r in proc.own_nodes() if isinstance(r, ast.Return)]
@@ -294,9 +304,9 @@ def rule_warmup(ctx):
     n = 0
     for qual in ('Daemon._send_single', 'Daemon._send_vector'):
         f = ctx.func('daemon', qual)
-        proc = list(f.nested.values())[0] if len(f.nested) == 1 else None
+        proc = reply_processor(f)
         if proc is None:
-            raise AnalysisError(f'{f.key}: reply processor (the single nested function) not found')
+            raise AnalysisError(f'{f.key}: reply processor (the nested function raising DaemonError) not found')
         cfg = ctx.cfg(proc)
         tests = [s for s in proc.own_nodes() if isinstance(s, ast.If) and 'self.WARMING_UP' in norm(s.test)
                  and any(isinstance(x, ast.Raise) and 'WarmingUpError' in norm(x.exc) for x in s.body)]
